@@ -224,6 +224,28 @@ class Obj(object):
     pass
 
 
+def make_partner(attrs):
+    """the object handed to update_yourself / update_other: every second attribute is a CLASS-level default (a detector class with
+    `distance = 100000.` in its body), the others are instance attributes -- hasattr/getattr see both, vars() sees only the latter"""
+    attrs = list(attrs)
+    cls = type('Partner', (object,), {n: v for i, (n, v) in enumerate(attrs) if i % 2 == 1 and isinstance(n, str) and n.isidentifier()})
+    o = cls()
+    for i, (n, v) in enumerate(attrs):
+        if not (i % 2 == 1 and isinstance(n, str) and n.isidentifier()):
+            setattr(o, n, v)
+    return o
+
+
+def partner_attrs(o, attrs):
+    """the attributes named in `attrs`, in that order, as getattr sees them"""
+    out, seen = [], set()
+    for n, _v in attrs:
+        if n not in seen:
+            seen.add(n)
+            out.append((n, getattr(o, n)))
+    return out
+
+
 class RealRunner:
     def __init__(self, tmpdir):
         from xfab import parameters as P
@@ -261,14 +283,12 @@ class RealRunner:
         elif k == 'setvals':
             p.set_variable_values(list(op[1]))
         elif k in ('upself', 'upother'):
-            o = Obj()
-            for n, v in op[1]:
-                setattr(o, n, v)
+            o = make_partner(op[1])
             if k == 'upself':
                 p.update_yourself(o)
             else:
                 p.update_other(o)
-                return ('obj', [(n, canon(v)) for n, v in o.__dict__.items()])
+                return ('obj', [(n, canon(v)) for n, v in partner_attrs(o, op[1])])
         elif k == 'load':
             self._write(op[1])
             p.loadparameters(self.path)
@@ -781,9 +801,7 @@ def check_history(ops):
                 for n, v in zip(vary, op[1]):
                     d[n] = v
             elif k in ('upself', 'upother'):
-                o = Obj()
-                for n, v in op[1]:
-                    setattr(o, n, v)
+                o = make_partner(op[1])
                 attrs = dict(op[1])
                 if k == 'upself':
                     p.update_yourself(o)
@@ -795,7 +813,7 @@ def check_history(ops):
                     for n in attrs:
                         if n in d:
                             attrs[n] = d[n]
-                    got = dict(o.__dict__)
+                    got = dict(partner_attrs(o, op[1]))
                     if set(got) != set(attrs) or any(not same(got[n], attrs[n]) for n in attrs):
                         return viol(i, 'attributes after update_other', [[n, jv(v)] for n, v in got.items()],
                                     [[n, jv(v)] for n, v in attrs.items()])
